@@ -76,37 +76,7 @@ def damaged_case(ctx, frame, positions, cls):
     return True
 
 
-def syndrome_burst(L, k, target):
-    """Error pattern confined to the 24-bit window at bit offset k of an L-byte frame whose CRC
-    syndrome equals `target` (window -> syndrome is a bijection because gcd(x, G) = 1). Such a burst
-    (<= 24 bits) is in the guaranteed-detectable class; it defeats any check that ignores residue bits."""
-    basis = []
-    for j in range(24):
-        e = bytearray(L)
-        b = k + j
-        e[b >> 3] = 0x80 >> (b & 7)
-        basis.append(refcrc.crc_ref2(bytes(e)))
-    # Gaussian elimination over GF(2): find subset of basis XORing to target
-    rows = [(basis[j], 1 << j) for j in range(24)]
-    piv = {}
-    for val, comb in rows:
-        for bit in range(23, -1, -1):
-            if not (val >> bit) & 1:
-                continue
-            if bit in piv:
-                val ^= piv[bit][0]
-                comb ^= piv[bit][1]
-            else:
-                piv[bit] = (val, comb)
-                break
-    val, comb = target, 0
-    for bit in range(23, -1, -1):
-        if (val >> bit) & 1:
-            if bit not in piv:
-                return None
-            val ^= piv[bit][0]
-            comb ^= piv[bit][1]
-    return tuple(k + j for j in range(24) if (comb >> j) & 1)
+syndrome_burst = streams.syndrome_burst
 
 
 def validate0_case(ctx, frame, newcrc):
